@@ -143,3 +143,95 @@ Proof.
   - intros w' Ew. inversion Ew; subst. auto.
   - intros w' Ew. discriminate.
 Qed.
+
+(* ---- schedule --------------------------------------------------------------------------------------------- *)
+Lemma descend_idle_in : forall f s i w, In w (descend_idle f s i) -> exists j, In w (v_isync (get_inv s j)).
+Proof.
+  induction f as [|f IH]; intros s i w Hin; cbn [descend_idle] in Hin; [destruct Hin|].
+  destruct (v_isync (get_inv s i)) as [|w0 tl] eqn:E.
+  - apply in_flat_map in Hin. destruct Hin as [j [_ Hin]]. eapply IH. exact Hin.
+  - destruct Hin as [<-|[]]. exists i. rewrite E. left. reflexivity.
+Qed.
+
+Lemma schedule_candidates_in : forall f s invs w, In w (schedule_candidates f s invs) -> exists j, In w (v_isync (get_inv s j)).
+Proof.
+  induction f as [|f IH]; intros s invs w Hin; cbn [schedule_candidates] in Hin; [destruct Hin|].
+  destruct (filter (has_idle_sync s) invs) as [|h tl].
+  - destruct (existsb is_root invs); [destruct Hin|]. eapply IH. exact Hin.
+  - apply in_flat_map in Hin. destruct Hin as [j [_ Hin]]. eapply descend_idle_in. exact Hin.
+Qed.
+
+Lemma pick_worker_in : forall s t cands w, pick_worker s t cands = Some w -> In w cands.
+Proof.
+  intros s t cands w H. unfold pick_worker in H.
+  destruct (find _ (s_hints s)) as [[o w']|] eqn:Ef.
+  - inversion H; subst. apply find_some in Ef. destruct Ef as [_ Ef]. apply andb_true_iff in Ef. destruct Ef as [_ Ef].
+    apply existsb_exists in Ef. destruct Ef as [x [Hx Ex]]. apply wref_eqb_eq in Ex. subst. exact Hx.
+  - destruct cands; [discriminate|]. inversion H; subst. left. reflexivity.
+Qed.
+
+(* parked workers, as far as scheduling needs them (from the worker protocol invariant) *)
+Definition Parked (s : state) : Prop :=
+  forall i w, In w (v_isync (get_inv s i)) ->
+    worker_exists s w = true /\ k_wait (get_worker s w) = true /\ k_last (get_worker s w) <> None.
+
+Lemma SW_Parked : forall s, SW s -> Parked s.
+Proof.
+  intros s [_ [_ [_ [_ [_ [_ [X8 _]]]]]]] i w Hin. destruct (X8 i w Hin) as [He [Hw [Hl _]]]. rewrite Hl. repeat split; auto. discriminate.
+Qed.
+
+Lemma wake_up_reads : forall s w, worker_exists s w = true -> k_last (get_worker s w) <> None ->
+  worker_exists (wake_up w s) w = true /\ k_wait (get_worker (wake_up w s) w) = false.
+Proof.
+  intros s w He Hl. unfold wake_up, dequeue_worker. destruct (k_last (get_worker s w)) as [p|] eqn:E; [|congruence].
+  set (s1 := upd_inv _ _ s).
+  assert (He1 : worker_exists s1 w = true) by (unfold s1; rewrite (worker_exists_frame s); [exact He|apply scqs_upd_inv]).
+  rewrite worker_exists_upd_worker, get_worker_upd_worker, wref_eqb_refl, He1. cbn. auto.
+Qed.
+
+Lemma XS_enqueue_fold : forall ext t l s,
+  In t ext -> NoDup l -> (forall o, In o l -> In o (task_opids s t)) -> (forall o, In o l -> ~ queued s o) ->
+  XS ext s -> Lc t None None false s ->
+  XS ext (fold_left (fun s o => enqueue o s) l s) /\ Lc t None None false (fold_left (fun s o => enqueue o s) l s).
+Proof.
+  intros ext t l. induction l as [|o l IH]; intros s Hin Hnd Hsub Hnq HXS HL; cbn [fold_left]; [auto|].
+  inversion Hnd as [|? ? Hno Hnd']; subst.
+  destruct (enqueue_reads o s) as [E1 [E2 E3]].
+  assert (Ho : In o (task_opids s t)) by (apply Hsub; left; reflexivity).
+  unfold task_opids in Ho. apply in_map_iff in Ho. destruct Ho as [[i o'] [Eo Ho]]. cbn in Eo. subst o'.
+  destruct (LcO2 _ _ _ _ _ HL i o Ho) as [Ha [Ht Hi]].
+  apply IH; auto.
+  - intros o' Hin'. unfold task_opids. rewrite (get_task_frame _ _ _ E2). apply Hsub. right. exact Hin'.
+  - intros o' Hin' Hq. unfold queued in Hq. rewrite (get_op_frame _ _ _ E1) in Hq. apply E3 in Hq. destruct Hq as [Hq | ->]; [|contradiction].
+    apply (Hnq o'); [right; exact Hin'|exact Hq].
+  - apply XS_enqueue; [exact Ha|rewrite Ht; exact Hin| |exact HXS]. apply (Hnq o). left. reflexivity.
+  - unfold enqueue. cbv zeta. lc_go1.
+Qed.
+
+Lemma XS_schedule_clean : forall ext t s,
+  Parked s -> XS (t :: ext) s -> Lc t None None true s -> XS ext (schedule t s).
+Proof.
+  intros ext t s Hpk HXS HL. unfold schedule. cbv zeta.
+  destruct (pick_worker s t _) as [w|] eqn:Ep.
+  - apply pick_worker_in in Ep. apply schedule_candidates_in in Ep. destruct Ep as [j Hj].
+    destruct (Hpk j w Hj) as [He [_ Hl]]. destruct (wake_up_reads s w He Hl) as [He1 Hw1].
+    assert (HXS1 : XS (t :: ext) (wake_up w s)) by (unfold wake_up; apply XS_dequeue_worker; exact HXS).
+    assert (HL1 : Lc t None None true (wake_up w s)) by (unfold wake_up; apply Lc_dequeue_worker; exact HL).
+    set (s1 := wake_up w s) in *. clearbody s1.
+    assert (Hnp : is_phantom w = false).
+    { destruct (is_phantom w) eqn:E; [|reflexivity]. pose proof (XS_NPh _ _ HXS1 w He1). congruence. }
+    pose proof (XS_assign_unqueued (t :: ext) w t 0 s1 (or_introl eq_refl) Hw1 HXS1) as [A [B [C [N [T D]]]]].
+    repeat (split; [assumption|]).
+    destruct (Lc_assign_unqueued t true w 0 s1 (XS_NPh _ _ HXS1) (fun _ => He1) HL1) as [H|[_ H]];
+      (eapply Lc_drop; [| |exact H|exact D]); auto.
+    + intros w' Ew. inversion Ew; subst. auto.
+    + intros w' Ew. discriminate.
+  - pose proof (XS_XN _ _ HXS t) as Hnd.
+    destruct (XS_enqueue_fold (t :: ext) t (task_opids s t) s (or_introl eq_refl) Hnd (fun _ H => H)) as [[A [B [C [N [T D]]]]] HL2]; auto.
+    + intros o Ho Hq. unfold task_opids in Ho. apply in_map_iff in Ho. destruct Ho as [[i o'] [Eo Ho]]. cbn in Eo. subst o'.
+      destruct (LcO2 _ _ _ _ _ HL i o Ho) as [Ha [Ht Hi]].
+      unfold queued, get_inv in Hq. destruct (aget iref_eqb (o_inv (get_op s o)) (s_invs s)) as [v|] eqn:E; [|destruct Hq].
+      apply (aget_In iref_eqb iref_eqb_eq) in E. exact (LcU _ _ _ _ _ HL eq_refl o _ v Ha Ht E Hq).
+    + apply Lc_weaken_uq. exact HL.
+    + repeat (split; [assumption|]). eapply Lc_drop; [| |exact HL2|exact D]; auto. intros w' Ew. discriminate.
+Qed.
